@@ -286,7 +286,10 @@ def rec_doc(v, rng, mode, layout):
 # text an XML parser would reject but the library reads (an '&' that starts no reference is copied verbatim
 # once the end of the text is known); the value it stands for is computed by the extracted model (entfeed)
 LENIENT = ["a&b", "AT&T Inc", "&", "&&", "a&#zz;b", "a&#1114112;b", "&quot;", "&apos;x", "&unknown;", "&am;", "&lt", "a&lt b",
-           "&ltx;", "&gx;", "&#x110000;", "x&#12", "&#x1F", "&amp&amp;", "&a;&l;&g;", "&#38&#38;"]
+           "&ltx;", "&gx;", "&#x110000;", "x&#12", "&#x1F", "&amp&amp;", "&a;&l;&g;", "&#38&#38;",
+           # references to the code point 0 and digit-less ones: no character, the '&' is copied verbatim (the library aborted
+           # here - assert(val > 0) - until the repair of C05-xer-entref-nul-abort / C04-xer-charref-zero-assert)
+           "a&#0;b", "&#0;", "&#;", "&#x;", "&#x0;", "&#x000;", "&#0000000000;", "x&#;&#0;y", "&#0;&amp;&#x;", "&#0", "&#x0"]
 
 
 def string_cases(rng, tier, seed=0):
